@@ -405,8 +405,24 @@ func (w *world) pairTransitions(f *findings, bfs *bfs) {
 	sort.Strings(universe)
 	w.r.Set("faulty_deletable_line_universe", len(universe))
 
-	// one work item per (layout, A): one session on a copy of compile(A) serves every B
-	w.run("pairs", len(layouts)*n, f, bfs, nil, func(i int) {
+	var strictPairs [][2]int
+	for a, A := range w.states {
+		for b, B := range w.states {
+			if !A.bulk && !B.bulk && len(A.src)+len(B.src) <= w.p.strictMax {
+				strictPairs = append(strictPairs, [2]int{a, b})
+			}
+		}
+	}
+
+	// one work item per (layout, A): one session on a copy of compile(A) serves every B; then one work item
+	// per (layout, pair of small files) for the fresh-copy transition
+	w.run("pairs", len(layouts)*n+len(layouts)*len(strictPairs), f, bfs, nil, func(i int) {
+		if i >= len(layouts)*n {
+			i -= len(layouts) * n
+			sp := strictPairs[i/len(layouts)]
+			w.strictPair(f, bfs, i%len(layouts), sp[0], sp[1])
+			return
+		}
 		li, a := i/n, i%n
 		A := w.states[a]
 		ca := w.comp[li][a]
@@ -437,21 +453,10 @@ func (w *world) pairTransitions(f *findings, bfs *bfs) {
 			}
 			var v verdicts
 
-			// (1) the statement, literally: fresh copy of compile(A), the tool's own sequence
-			// open/ApplyDiff(file)/close, full raw-iterator dump, against dnsfix.DumpRDB(compile(B)).
+			// (1) the statement, literally (fresh copy of compile(A), the tool's own sequence): order 0 of the
+			// pairs of small files is a work item of its own, see strictPair
 			rest := perms
 			if len(A.src)+len(B.src) <= w.p.strictMax {
-				lines := permute(diff, perms[0])
-				dir := copyStore(ca.dir, w.scratch)
-				res, raw := w.strictStep(dir, lines, true)
-				os.RemoveAll(dir)
-				atomic.AddInt64(&cnt.Strict, 1)
-				atomic.AddInt64(&cnt.SingleNontrivial, nontrivial)
-				if v.judge(res, raw, nil, cb, lines, "file-api") {
-					if id := raw.id(); id != cb.rawID {
-						bfs.offer(&rawState{li: li, id: id, canon: b, start: a, hist: [][]string{lines}, path: []int{a, b}})
-					}
-				}
 				rest = perms[1:]
 			}
 
@@ -491,9 +496,6 @@ func (w *world) pairTransitions(f *findings, bfs *bfs) {
 				}
 				w.runInput(s, f, li, a, b, diff, ic, keys)
 			}
-			if w.fileFaultPair(a, b) {
-				w.fileInputFaults(f, li, a, b, diff)
-			}
 		}
 
 		// (3) close the session: the whole store, read with a raw iterator, must be exactly compile(A) again
@@ -507,6 +509,38 @@ func (w *world) pairTransitions(f *findings, bfs *bfs) {
 			f.add(&failure{kind: "residue", li: li, path: []int{a}, detail: det})
 		}
 	})
+}
+
+// strictPair is the statement, literally: a fresh copy of compile(A), the
+// tool's own sequence open/ApplyDiff(file)/close, a full raw-iterator dump,
+// against dnsfix.DumpRDB(compile(B)); then, for some pairs, the failure modes of
+// the diff file.
+func (w *world) strictPair(f *findings, bfs *bfs, li, a, b int) {
+	A, B := w.states[a], w.states[b]
+	ca, cb := w.comp[li][a], w.comp[li][b]
+	diff := lineDiff(A.pre, B.pre)
+	perms, _ := orders(diff, w.p.maxOrders)
+	lines := permute(diff, perms[0])
+	dir := copyStore(ca.dir, w.scratch)
+	res, raw := w.strictStep(dir, lines, true)
+	os.RemoveAll(dir)
+	atomic.AddInt64(&cnt.Strict, 1)
+	if len(diff) > 0 {
+		atomic.AddInt64(&cnt.SingleNontrivial, 1)
+	}
+	var v verdicts
+	if v.judge(res, raw, nil, cb, lines, "file-api") {
+		if id := raw.id(); id != cb.rawID {
+			bfs.offer(&rawState{li: li, id: id, canon: b, start: a, hist: [][]string{lines}, path: []int{a, b}})
+		}
+	}
+	if v.kind != "" {
+		det := fmt.Sprintf("%s: %s -> %s: fresh copy, rdb.ApplyDiff(file, dir), full dump\n%s", layouts[li], A.name, B.name, strings.Join(head(v.bad, 4), "\n"))
+		f.add(&failure{kind: v.kind, li: li, path: []int{a, b}, detail: det, diffs: [][]string{v.firstBad}})
+	}
+	if w.fileFaultPair(a, b) {
+		w.fileInputFaults(f, li, a, b, diff)
+	}
 }
 
 // runFault applies diff with the faulty line ft inserted at pos through the
